@@ -84,7 +84,7 @@ def coerce(text, have, want):
 
 
 GTYPE = {'str': 'name', 'nat': 'nat', 'Z': 'Z', 'bool': 'bool', 'ver': 'ver',
-         'tbl': 'tbl', 'entry': '(name * nat)', 'natset': 'list nat'}
+         'tbl': 'tbl', 'entry': '(name * nat)', 'natset': '(list nat)', 'ustate': 'ustate'}
 
 
 def gtype(t):
@@ -151,6 +151,8 @@ class Tr:
         self.SELF = {} if SELF is None else SELF
         self.ATTR = {} if ATTR is None else ATTR
         self.STATE = list(STATE)
+        self.MEM = 'mem'
+        self.FNAME = {}          # python callee -> Gallina name when they differ
 
     # ---- names ---------------------------------------------------------------
     def key(self, e):
@@ -245,7 +247,7 @@ class Tr:
             if lt == rt == 'str' and isinstance(e.left, ast.Constant):
                 t = '(contains %s %s)' % (l, r)
             elif lt == 'nat' and rt in ('natset', ('list', 'nat')):
-                t = '(mem %s %s)' % (l, r)
+                t = '(%s %s %s)' % (self.MEM, l, r)
             else:
                 raise Unsupported('in on %r and %r' % (lt, rt))
         elif isinstance(op, (ast.Lt, ast.LtE, ast.Gt, ast.GtE)) and lt == rt and lt in ('nat', 'Z'):
@@ -294,7 +296,7 @@ class Tr:
                     out.append(dflt)
                 else:
                     raise Unsupported('missing argument: ' + ast.unparse(e))
-            return '(%s %s)' % (f.id, ' '.join(out)), rty
+            return '(%s %s)' % (self.FNAME.get(f.id, f.id), ' '.join(out)), rty
         if isinstance(f, ast.Attribute):
             rt, rty = self.expr(f.value, env)
             m = self.METHODS.get((rty if not isinstance(rty, tuple) else rty[0], f.attr))
@@ -579,7 +581,7 @@ class Tr:
             pat, pat, mangle(x), body, it, pat, k(env))
 
     # ---- a whole function ------------------------------------------------------
-    def function(self, fn, gname, params, ret=None, state_ret=None):
+    def function(self, fn, gname, params, ret=None, state_ret=None, state=None):
         '''params: [(python name, type)] in Gallina order.  ret: expected type
         of the returned expression (joined/coerced), or state_ret = names of
         the state variables returned by a method without return value.
@@ -588,6 +590,8 @@ class Tr:
         if a.vararg or a.kwarg or a.kwonlyargs or a.posonlyargs:
             raise Unsupported(fn.name + ': signature')
         env = {n: t for n, t in params}
+        if state:
+            env.update({n: t for n, t in state})
         body = [x for x in fn.body]
         raises = self.raises(body)
         info = {}
@@ -620,6 +624,9 @@ class Tr:
         text = self.block(body, env, tail)
         ty = info['ty']
         sig = ' '.join('(%s : %s)' % (mangle(n), gtype(t)) for n, t in params)
+        if state:
+            sig = '(st_ : %s) %s' % (gtype(('tuple', [t for _, t in state])), sig)
+            text = "let '(%s) := st_ in\n  %s" % (', '.join(mangle(n) for n, _ in state), text)
         rt = gtype(ty)
         if raises:
             rt = 'option ' + rt
